@@ -105,5 +105,8 @@ def builder_check(prop, tier, seed, replay, mask, suites, model=None, assumption
     if tier == "thorough" and prop == "C13":
         # unbounded argument for the id counter (any history length); extra evidence
         cov["apalache_inductive_invariant"] = apalache_check("BuilderIds.tla")
+    if tier == "thorough" and prop == "C12":
+        # unbounded argument for SelectionValid (any number of functions, blocks and calls); extra evidence
+        cov["apalache_inductive_invariant"] = apalache_check("BuilderSel.tla")
     write_evidence(prop, tier, seed, cov, list(assumptions), time.time() - t0, len(rep.new))
     return rc
